@@ -526,6 +526,31 @@ Theorem forced_are_writes :
   forall w m r new, apply_op w m (OSetHead r new) = (set m r new, ROk).
 Proof. reflexivity. Qed.
 
+(* With the NBS flavour of the CAS (a loser whose intended manifest contents equal the
+   winner's is told it won) the statement is FALSE: two identical conditional updates from
+   the same state both succeed, the second one against a state in which its condition is
+   false.  Full statement that does not hold for [step_lockhash]:
+     forall sched, all_ok w m0 (g_log (fold_left (step_lockhash w) sched (init m0 progs))).
+   The final dataset map is still the one-at-a-time result of the first update alone (nothing
+   is lost); what fails is "a conditional update succeeds only if its condition held". *)
+Theorem cond_update_respects_check_nbs_lockhash_refuted :
+  exists (w : world) (m0 : refs) (progs : cid -> list op) (sched : list (cid * label)),
+    ~ all_ok w m0 (g_log (fold_left (step_lockhash w) sched (init m0 progs))).
+Proof.
+  exists {| w_parents := []; w_root := []; w_ws := [] |}, [(10, 1)],
+         (fun c => if (c <? 2) then [OUpdateWS 21 0 104] else []),
+         [(0, SBegin); (1, SBegin); (0, SAttempt); (1, SAttempt); (0, SCas); (1, SCas)].
+  intros H.
+  assert (E : g_log (fold_left (step_lockhash {| w_parents := []; w_root := []; w_ws := [] |})
+                [(0, SBegin); (1, SBegin); (0, SAttempt); (1, SAttempt); (0, SCas); (1, SCas)]
+                (init [(10, 1)] (fun c => if (c <? 2) then [OUpdateWS 21 0 104] else [])))
+              = [(0, OUpdateWS 21 0 104); (1, OUpdateWS 21 0 104)]).
+  { vm_compute. reflexivity. }
+  rewrite E in H.
+  specialize (H [(0, OUpdateWS 21 0 104)] 1 (OUpdateWS 21 0 104) [] eq_refl).
+  vm_compute in H. discriminate.
+Qed.
+
 (* ------------------------------------------------------------------ *)
 (* 6. non-vacuity: two clients race on one branch; the loser retries against the
       fresh map and is refused; a third client with a stale view updates another
